@@ -46,9 +46,9 @@ def check_input_data(data, exposure, outcome, estimator, drop_censoring, drop_mi
             warnings.warn("There is missing data in the dataset. By default, " + str(estimator) +
                           " will drop all missing data (including missing outcome data). " + str(estimator) +
                           " will fit " + str(valid_obs) + ' of ' + str(data.shape[0]) + ' observations', UserWarning)
-            data = data.copy().dropna().reset_index()
+            data = data.copy().dropna().reset_index(drop=True)
         else:
-            data = data.copy().reset_index()
+            data = data.copy().reset_index(drop=True)
         miss_flag = False
         data['__missing_indicator__'] = 1
     else:
@@ -58,9 +58,9 @@ def check_input_data(data, exposure, outcome, estimator, drop_censoring, drop_mi
             warnings.warn("There is missing data that is not the outcome in the data set. " + str(estimator) +
                           " will drop all missing data that is not missing outcome data. " + str(estimator) +
                           " will fit " + str(valid_obs) + " of " + str(data.shape[0]) + " observations", UserWarning)
-            data = data.copy().dropna(subset=[d for d in data.columns if d != outcome]).reset_index()
+            data = data.copy().dropna(subset=[d for d in data.columns if d != outcome]).reset_index(drop=True)
         else:
-            data = data.copy().reset_index()
+            data = data.copy().reset_index(drop=True)
         # Checking for censored data
         if valid_obs != data.dropna(subset=[outcome]).shape[0]:
             miss_flag = True
